@@ -37,11 +37,11 @@ GLOBAL_ASSUMPTIONS = [
 
 class J:
     def __init__(self, harness, tier="q", cfg="std", unwind=10, uw=None, cbmc=None, mem_gb=8, timeout_q=1800,
-                 timeout_t=7200, stubs=None, desc="", weight=1, need_cover=True):
+                 timeout_t=7200, stubs=None, desc="", weight=1, need_cover=True, trace=True):
         self.harness, self.tier, self.cfg, self.unwind = harness, tier, cfg, unwind
         self.uw, self.cbmc, self.mem_gb = uw, cbmc, mem_gb
         self.timeout_q, self.timeout_t, self.stubs, self.desc = timeout_q, timeout_t, stubs, desc
-        self.weight, self.need_cover = weight, need_cover
+        self.weight, self.need_cover, self.trace = weight, need_cover, trace
 
 
 class P:
@@ -137,4 +137,60 @@ PROPS["C13"] = P(
     ],
     bounds="token level: 1..2 (quick) / 3 (thorough) subtags, each " + T9 + "; conversions: any langid with <= 2 variants",
     outside="inputs with more than 3 subtags; subtags longer than 9 bytes",
+)
+
+TAB_UW = {r"c18::": 10, r"contains|Iter<u": 40, r"txt_len": 10}
+PROPS["C18"] = P(
+    jobs=[
+        J("c18_lang_only", unwind=10, uw=TAB_UW, desc="LANG_ONLY[i] for symbolic i over all 7143 rows: key/value == CLDR, well formed, strictly increasing (columns flattened from the compiled static by rustc const-eval, row index symbolic)", weight=3, mem_gb=16, cbmc=["--no-pointer-check"], trace=False),
+        J("c18_lang_only_wellformed", unwind=10, uw=TAB_UW, desc="every LANG_ONLY reference row decodes through the checked constructors and re-encodes to the same integers", weight=4, mem_gb=24, cbmc=["--no-pointer-check"], trace=False),
+        J("c18_lang_region", unwind=10, uw=TAB_UW, desc="LANG_REGION, symbolic row index over all 62 rows"),
+        J("c18_lang_script", unwind=10, uw=TAB_UW, desc="LANG_SCRIPT, all 378 rows"),
+        J("c18_script_region", unwind=10, uw=TAB_UW, desc="SCRIPT_REGION, all 215 rows"),
+        J("c18_script_only", unwind=10, uw=TAB_UW, desc="SCRIPT_ONLY, all 163 rows"),
+        J("c18_region_only", unwind=10, uw=TAB_UW, desc="REGION_ONLY, all 258 rows"),
+        J("c18_layout_tables", unwind=10, uw=TAB_UW, desc="4 direction tables == sets derived from the 710 layout files (both inclusions by symbolic index)"),
+        J("c18_cldr_version", unwind=10, uw=TAB_UW, desc="CLDR_VERSION == _cldrVersion of the JSON"),
+    ],
+    bounds="every row of all six likely-subtags tables and all four direction tables (symbolic row index, no sampling); reference re-derived from the JSON files on every run by tools/cldr_ref.py",
+    outside="re-running the repository's generator binaries and diffing their output (a concrete execution, not a solver query); the JSON parser of tools/cldr_ref.py is trusted",
+)
+
+LK_UW = {r"lk::find": 15, r"contains|Iter<u": 40, r"c06::|c14::": 6}
+PROPS["C06"] = P(
+    jobs=[
+        J("c06_kv_region_only", unwind=6, uw=LK_UW, desc="maximize(und,-,K) == V for symbolic row of REGION_ONLY (all 258)"),
+        J("c06_kv_script_only", unwind=6, uw=LK_UW, desc="all 163 SCRIPT_ONLY keys"),
+        J("c06_kv_script_region", unwind=6, uw=LK_UW, desc="all 215 SCRIPT_REGION keys"),
+        J("c06_kv_lang_region", unwind=6, uw=LK_UW, desc="all 62 LANG_REGION keys"),
+        J("c06_kv_lang_script", unwind=6, uw=LK_UW, desc="all 378 LANG_SCRIPT keys"),
+        J("c06_kv_lang_only", tier="t", unwind=6, uw=LK_UW, desc="all 7142 LANG_ONLY keys except bare und", weight=5, mem_gb=40, cbmc=["--no-pointer-check"], trace=False, timeout_t=5400),
+        J("c06_cascade_und", unwind=6, uw=LK_UW, desc="arbitrary (und, script?, region?) vs reference cascade over the three und tables", weight=2),
+        J("c06_cascade_lang", tier="t", unwind=6, uw=LK_UW, desc="arbitrary (language, script?, region?) vs reference cascade incl. the 7143-row table", weight=5, mem_gb=40, cbmc=["--no-pointer-check"], trace=False, timeout_t=5400),
+        J("c06_wrapper_und", unwind=6, uw=dict(VAL_UW, **LK_UW), desc="LanguageIdentifier::maximize bool + write-back, und language, <=1 variant", weight=2),
+    ],
+    bounds="K->V: every row of the five small tables (quick) and of LANG_ONLY (thorough) by symbolic index; cascade: every valid (script?, region?) with und language (quick), every valid (language, script?, region?) (thorough)",
+    outside="quick tier does not touch the 7143-row language table; bare 'und' key; UTS #35 fallbacks the library does not implement are accepted either way (property text)",
+    assumptions=["reference tables are re-derived from data/likelySubtags.json by tools/cldr_ref.py on every run; C18 decides that the compiled tables equal them"],
+)
+PROPS["C07"] = P(
+    jobs=[
+        J("c07_laws_und", unwind=6, uw=LK_UW, desc="kept subtags, all three filled, second maximize is None; arbitrary (und, script?, region?)"),
+        J("c07_laws_lang", tier="t", unwind=6, uw=LK_UW, desc="same for arbitrary non-empty language (touches the 7143-row table)", weight=5, mem_gb=40, cbmc=["--no-pointer-check"], trace=False, timeout_t=5400),
+        J("c07_wrapper_und", unwind=6, uw=dict(VAL_UW, **LK_UW), desc="LanguageIdentifier::maximize: variants untouched, bool<=>changed, false=>unchanged, idempotent; und language, <=2 variants", weight=3, mem_gb=12),
+    ],
+    bounds="every valid (script?, region?) with und language (quick); every valid (language, script?, region?) (thorough); wrapper with 0..2 variants",
+    outside="Locale extensions attached to the identifier (Locale.id is a plain LanguageIdentifier field; extension state is not reachable from LanguageIdentifier::maximize)",
+)
+PROPS["C14"] = P(
+    jobs=[
+        J("c14_rows_direct", unwind=6, uw=LK_UW, desc="symbolic row over the CLDR locale directories whose answer needs no likely script"),
+        J("c14_rows_direct", cfg="nolikely", unwind=6, uw=LK_UW, desc="same rows, built without the likelysubtags feature"),
+        J("c14_rows_likely", tier="t", unwind=6, uw=LK_UW, desc="script-less rows of RTL-listed languages, likelysubtags on (7143-row table)", weight=5, mem_gb=40, cbmc=["--no-pointer-check"], trace=False, timeout_t=5400),
+        J("c14_rows_likely", cfg="nolikely", unwind=6, uw=LK_UW, desc="same rows without likelysubtags: may differ only for multi-direction languages"),
+        J("c14_script_decides", unwind=6, uw=dict(VAL_UW, **LK_UW), desc="arbitrary identifier with <=1 variant: listed script decides; unlisted script + non-RTL language => LTR; variants irrelevant", weight=2),
+        J("c14_script_decides", cfg="nolikely", unwind=6, uw=dict(VAL_UW, **LK_UW), desc="same, without likelysubtags", weight=2),
+    ],
+    bounds="all 709 non-root CLDR locale directories by symbolic row index in both feature configurations; arbitrary valid (language, script?, region?, <=1 variant) for the script/language clauses",
+    outside="arbitrary identifiers of RTL-listed languages without a listed script (their answer is defined only through the rows); quick tier skips the rows that reach the 7143-row table with likelysubtags on",
 )
